@@ -64,9 +64,9 @@ func runC08Lock(c *Ctx, r *Rng) {
 	}
 
 	s := NewSched(nil)
-	// a Close caller that has flushed is inside registry.purge(), which closes every subscope through the same
-	// scope.Close and so passes the close.* hooks again: those are not schedule points of the root's Close
-	// (the model's purge is one step)
+	// a Close caller past close(done) meets the close.* hooks again only inside registry.purge(), which closes every
+	// subscope through the same scope.Close: those are not schedule points of the root's Close (the model's purge is
+	// one step, between the final pass and the final Flush since repair D14)
 	var pmu sync.Mutex
 	inPurge := map[string]bool{}
 	s.ParkOnT = func(th, l string) bool {
@@ -204,15 +204,18 @@ func runC08Lock(c *Ctx, r *Rng) {
 			say(fmt.Sprintf("adv closer %d won", ci))
 		case "close.post-done":
 			say(fmt.Sprintf("adv closer %d doneClosed", ci))
+			// from here on this thread meets the close.* hooks only inside registry.purge() (it closes every subscope
+			// through scope.Close): not schedule points of the root's Close
+			pmu.Lock()
+			inPurge[t.Name] = true
+			pmu.Unlock()
 		case "counter.deliver":
 			tok, last := takeVisits()
 			say(fmt.Sprintf("adv closer %d deliver:%d %s", ci, last, tok))
 		case "rep.flush":
+			// the final pass is over, the registry has been purged (one step of the model), Flush is being called
 			tok, _ := takeVisits()
 			say(fmt.Sprintf("adv closer %d flush %s", ci, tok))
-			pmu.Lock()
-			inPurge[t.Name] = true
-			pmu.Unlock()
 		case "close.pre-reporter-close":
 			say(fmt.Sprintf("adv closer %d reporterClose", ci))
 		case "done":
